@@ -46,8 +46,8 @@ func main() {
 	m.Rule = "generated loop programs (nested FOR, FOR-WHILE, sub-queries, clauses, COLLECT AGGREGATE, error suppression and optional chaining around calls) whose bodies call instrumented functions; each program is run once uncancelled to count its calls N, then with the context cancelled inside the k-th call for every k < min(N, cap), and once with the context cancelled before Run; plus WAIT/WAITFOR scripts (see extra); a case is non-trivial when the program makes at least one call; distinct = distinct (query, k)"
 	c := compiler.New()
 	fqlrun.Register(c)
-	params := map[string]interface{}{"n": 2, "arr": []interface{}{3, 1, 2, 1}, "obj": map[string]interface{}{"a": 1, "list": []interface{}{1, 2}}, "s": "k", "f": 1.5}
-	pcoq := `[(hx "6e", VInt 2); (hx "617272", VArr [VInt 3; VInt 1; VInt 2; VInt 1]); (hx "6f626a", VObj [(hx "61", VInt 1); (hx "6c697374", VArr [VInt 1; VInt 2])]); (hx "73", VStr (hx "6b")); (hx "66", VFloat 4609434218613702656%N)]`
+	params := map[string]interface{}{"n": 2, "arr": []interface{}{3, 1, 2, 1}, "obj": map[string]interface{}{"a": 1, "list": []interface{}{1, 2}}, "s": "k", "f": 1.5, "big": []interface{}{2, 1, 2, 1}}
+	pcoq := `[(hx "626967", VArr [VInt 2; VInt 1; VInt 2; VInt 1]); (hx "6e", VInt 2); (hx "617272", VArr [VInt 3; VInt 1; VInt 2; VInt 1]); (hx "6f626a", VObj [(hx "61", VInt 1); (hx "6c697374", VArr [VInt 1; VInt 2])]); (hx "73", VStr (hx "6b")); (hx "66", VFloat 4609434218613702656%N)]`
 	distinct := map[string]struct{}{}
 	var files []string
 	var idx []interface{}
@@ -94,6 +94,10 @@ func main() {
 		g := fqlast.NewGen(rng, 2+rng.Intn(depth-1))
 		g.Faulty = 15
 		p := g.Program()
+		if i%4 == 0 {
+			p = tower(rng)
+			g.Stats["tower"]++
+		}
 		for k, v := range g.Stats {
 			m.Distribution[k] += v
 		}
@@ -138,4 +142,42 @@ func min(a, b int) int {
 		return a
 	}
 	return b
+}
+
+// tower: nested calls with several arguments and error suppression / optional
+// chaining at a random level, so that a cancellation inside an inner argument
+// surfaces through one, two or three enclosing calls before it meets a '?'.
+func tower(rng *rand.Rand) *fqlast.Program {
+	n := int64(0)
+	t := func() *fqlast.E { n++; return fqlast.Call("T", fqlast.Int(n)) }
+	e := fqlast.Call("ARR", t(), t())
+	depth := 1 + rng.Intn(4)
+	for d := 0; d < depth; d++ {
+		if rng.Intn(3) == 0 {
+			e = fqlast.Suppress(e)
+		}
+		switch rng.Intn(3) {
+		case 0:
+			e = fqlast.Call("ARR", t(), e)
+		case 1:
+			e = fqlast.Call("ARR", e, t())
+		default:
+			e = fqlast.Call("T", t(), e)
+		}
+	}
+	switch rng.Intn(3) {
+	case 0:
+		e = fqlast.Suppress(e)
+	case 1:
+		e = fqlast.Member(fqlast.Call("ARR", e), fqlast.Seg{Optional: true, Expr: fqlast.Int(0)})
+	}
+	switch rng.Intn(4) {
+	case 0:
+		return &fqlast.Program{Ret: e}
+	case 1:
+		return &fqlast.Program{Ret: fqlast.Arr(e, fqlast.Int(7))}
+	case 2:
+		return &fqlast.Program{Stmts: []fqlast.Stmt{{Let: true, Name: "x", E: e}}, Ret: fqlast.Var("x")}
+	}
+	return &fqlast.Program{For: &fqlast.For{Val: "i", Src: fqlast.Range(fqlast.Int(1), fqlast.Int(2)), Ret: &fqlast.Ret{E: e}}}
 }
